@@ -165,6 +165,30 @@ func runC17(w *World, c *Check) {
 				ok = true
 			}
 		}
+		if !ok {
+			// the field-by-field form: token id at 0, flags at 2, 0xFF at 3, nothing at 4…7
+			hf := headerFields(fa, `local<[16]byte>[:16]`)
+			idOK, flOK, ffOK, clean := false, false, false, true
+			var seen []string
+			for k, v := range hf {
+				if !strings.HasPrefix(k, "W:") {
+					continue
+				}
+				seen = append(seen, k+"@"+v)
+				switch {
+				case (v == "0:" || v == "0:2") && (strings.Contains(k, "TokenId") || strings.Contains(k, "ID")):
+					idOK = true
+				case v == "2" && strings.Contains(strings.ToLower(k), "flags"):
+					flOK = true
+				case v == "3" && (strings.Contains(k, "255") || strings.Contains(k, "FillerByte")):
+					ffOK = true
+				case strings.HasPrefix(v, "4") || strings.HasPrefix(v, "5") || strings.HasPrefix(v, "6") || strings.HasPrefix(v, "7"):
+					clean = false
+				}
+			}
+			ok = idOK && flOK && ffOK && clean
+			_ = seen
+		}
 		c.Decide(ok, "C17.layout", FuncKey(fn), "W:prefix", w.Pos(fn.Pos()), "the checksummed Wrap header is 05 04 ‖ flags ‖ FF ‖ EC=0 ‖ RRC=0 (RFC 4121 §4.2.4)", "prefix is not [5, 4, flags, 255, 0, 0, 0, 0]")
 	}
 	for fk, want := range map[string]string{"gssapi.getGssWrapTokenId": "[5, 4]", "gssapi.getGSSMICTokenID": "[4, 4]", "gssapi.fillerBytes": "[255, 255, 255, 255, 255]"} {
